@@ -50,7 +50,11 @@ FireServe ==
   /\ armed' = [armed EXCEPT !["serve"] = (srv' = "recheck")]
   /\ UNCHANGED <<l, clean, EnvOps>>
 FireStop == armed["stop"] /\ StopNext /\ armed' = [armed EXCEPT !["stop"] = FALSE] /\ UNCHANGED <<l, clean, EnvOps>>
-FireDrain == armed["drain"] /\ DrainNext /\ armed' = [armed EXCEPT !["drain"] = FALSE] /\ UNCHANGED <<l, clean, EnvOps>>
+\* (the step of Drain that no hook point precedes follows without a new arrival)
+FireDrain ==
+  /\ armed["drain"] /\ DrainNext
+  /\ armed' = [armed EXCEPT !["drain"] = (drn' \in {"d1", "d2"} /\ DrainGate' = "")]
+  /\ UNCHANGED <<l, clean, EnvOps>>
 FireHandler(h) == armed[h] /\ HandlerNext(h) /\ armed' = [armed EXCEPT ![h] = (hs'[h] = "add2")] /\ UNCHANGED <<l, clean, EnvOps>>
 FireConnect(h) == h \in connecting /\ PeerConnect(h) /\ UNCHANGED <<l, clean, armed, EnvOps>>
 FireClose(h) == h \in closing /\ PeerClose(h) /\ closing' = closing \ {h} /\ UNCHANGED <<l, clean, armed, connecting, freeing>>
